@@ -152,10 +152,15 @@ def iloop (P : Prob n K) (R : IParams K) : ℕ → ISt n K → ISt n K
 /-- the model value `grad_orig @ x + 0.5 x @ H x` -/
 def qval (P : Prob n K) (x : Fin n → K) : K := P.g ⬝ᵥ x + 1 / 2 * (x ⬝ᵥ P.H *ᵥ x)
 
-/-- the whole second phase: the improved step, or `step_base` when the alternative iteration did not improve the model -/
+/-- `step_norm = np.linalg.norm(step); if step_norm > delta: step *= delta / step_norm` -/
+def rescale (R : IParams K) (delta : K) (x : Fin n → K) : Fin n → K :=
+  if R.sqrtO (x ⬝ᵥ x) > delta then (delta / R.sqrtO (x ⬝ᵥ x)) • x else x
+
+/-- the whole second phase: the improved step scaled back onto the trust region, or `step_base` when the alternative
+iteration did not improve the model -/
 def improve (P : Prob n K) (R : IParams K) (fuel : ℕ) (s : ISt n K) : Fin n → K :=
-  let fin := iloop P R fuel s
-  if qval P fin.step > qval P s.step then s.step else fin.step
+  let fin := rescale R P.delta (iloop P R fuel s).step
+  if qval P fin > qval P s.step then s.step else fin
 
 /-! ### the first phase with its `boundary_reached` flag -/
 
